@@ -322,6 +322,34 @@ V("c20-neutral-rename-stack", N, "C20", None,
   ("__init__", "            stack.enter_context(p)", "            exit_stack.enter_context(p)"),
   ("__init__", "        stack.close()", "        exit_stack.close()"))
 
+V("c20-split-ignores-attached-value", A, "C20", "C20.e",
+  ("cli", 'in_flag = "=" not in a and (a.startswith("--") or len(a) == 2)', "in_flag = True"))
+V("c20-split-flag-never-lowered", A, "C20", "C20.e",
+  ("cli", "        else:\n            in_flag = False\n", ""))
+V("c20-neutral-split-if-else", N, "C20", None,
+  ("cli", '            in_flag = "=" not in a and (a.startswith("--") or len(a) == 2)',
+   '            if "=" in a:\n                in_flag = False\n            else:\n                in_flag = a.startswith("--") or len(a) == 2'))
+V("c20-std-targets-module-level-extended", A, "C20", "C20.c",
+  ("__init__", "@contextmanager\ndef patch(", "_STD = [\"snowflake.connector.connect\", \"snowflake.connector.pandas_tools.write_pandas\"]\n\n\n@contextmanager\ndef patch("),
+  ("__init__", '    std_targets = ["snowflake.connector.connect", "snowflake.connector.pandas_tools.write_pandas"]\n', "    std_targets = _STD\n    std_targets += list([extra_targets] if isinstance(extra_targets, str) else extra_targets)\n"),
+  ("__init__", "        for im in std_targets + list([extra_targets] if isinstance(extra_targets, str) else extra_targets):", "        for im in std_targets:"))
+V("c20-neutral-std-targets-module-tuple", N, "C20", None,
+  ("__init__", "@contextmanager\ndef patch(", "_STD = (\"snowflake.connector.connect\", \"snowflake.connector.pandas_tools.write_pandas\")\n\n\n@contextmanager\ndef patch("),
+  ("__init__", '    std_targets = ["snowflake.connector.connect", "snowflake.connector.pandas_tools.write_pandas"]\n', "    std_targets = list(_STD)\n"))
+V("c17-rowset-gated-by-rowcount", A, "C17", "C17.i", ("server", "        if cur._arrow_table:  # noqa: SLF001", "        if cur.rowcount:"))
+V("c17-neutral-rowset-num-rows", N, "C17", None, ("server", "        if cur._arrow_table:  # noqa: SLF001", "        if cur._arrow_table is not None and cur._arrow_table.num_rows > 0:  # noqa: SLF001"))
+V("c06-hugeint-unmapped", A, "C06", "C06.f", ("types", '    # sum() and count_if() of integers are 128 bit in duckdb\n    "HUGEINT": "fixed",\n', ""))
+V("c01-write-pandas-half-frame", A, "C01", "C01.c3",
+  ("pandas_tools", "    count = _insert_df(conn._duck_conn, df, name)  # noqa: SLF001", "    count = _insert_df(conn._duck_conn, df.iloc[: len(df) // 2], name)  # noqa: SLF001"))
+V("c12-insert-columns-of-first-clause", A, "C12", "C12.f",
+  ("transforms_merge", "            cols = [str(c) for c in then.this.expressions] if then.this else []", "            cols = [str(c) for c in then.this.expressions] if then.this else cols"),
+  ("transforms_merge", "    statements: list[exp.Expression] = []\n", "    statements: list[exp.Expression] = []\n    cols: list[str] = []\n"))
+V("c13-checkpoint-after-create-database", A, "C13", "C13.g",
+  ("cursor", "            self._duck_conn.execute(macros.creation_sql(create_db_name))",
+   "            self._duck_conn.execute(macros.creation_sql(create_db_name))\n            if self._conn.db_path:\n                self._duck_conn.execute(\"CHECKPOINT\")"))
+V("c19-lock-only-with-create-database", A, "C19", "C19.a",
+  ("instance", "        with self._connect_lock:", "        import contextlib\n        with (self._connect_lock if self.create_database_on_connect else contextlib.nullcontext()):"))
+
 # ---------------------------------------------------------------- C01
 V("c01-float-stays-float", A, "C01", "C01.a", ("transforms", '        expression.args["this"] = exp.DataType.Type.DOUBLE\n', '        expression.args["this"] = exp.DataType.Type.FLOAT\n'))
 V("c01-drop-float-stage", A, "C01", "C01.a", ("cursor", "            .transform(transforms.float_to_double)\n", ""))
